@@ -108,14 +108,24 @@ def run_M(ctx, quick):
 
 
 def run_G(ctx, quick, trees):
-    plan = [("LockstepGen_quick.cfg", "exhaustive2", None, None, 16 if quick else 2)]
-    plan.append(("LockstepSim.cfg", "simulated", "num=%d" % (400 if quick else 12000), 7, 1))
-    for cfg, kind, sim, depth, stride in plan:
+    # NOTE in -simulate mode TLC evaluates the Emit constraint on every candidate successor of the last step, so one
+    # simulated trace yields one behaviour per micro-operation enabled there (~60), not one
+    # (cfg, kind, simulate, depth, number of behaviours to replay - a seeded stride sample of what TLC emitted)
+    plan = [("LockstepGen_quick.cfg", "exhaustive2", None, None, 4000 if quick else 60000)]
+    plan.append(("LockstepSim.cfg", "simulated", "num=%d" % (4 if quick else 100), 7, 2500 if quick else 60000))
+    for cfg, kind, sim, depth, target in plan:
         wd = tlc.workdir("c02g_" + kind)
         spool = os.path.join(wd, "beh.spool")
         res = tlc.run("Lockstep", cfg, simulate=sim, depth=depth, seed=ctx.seed if sim else None, spool=spool,
                       tag="c02g" + kind, timeout=6000)
         ctx.add_tlc(res, "G:" + cfg)
+        nbeh = 0
+        with open(spool, "rb") as f:
+            for bl in f:
+                if bl.startswith(b'"'):
+                    nbeh += 1
+        ctx.count("G_behaviours_emitted_" + kind, nbeh)
+        stride = max(1, -(-nbeh // target))
         chunks = tlc.spool_chunks(spool, 64)
         offset = ctx.seed % stride if stride > 1 else 0
         jobs = [(spool, lo, hi, ctx.seed, stride, offset) for lo, hi in chunks]
